@@ -90,6 +90,9 @@ FIXES = [
  ('C09-kurt-u', 'statistics.py',
   "            svar = self.variance(False)\n            return self._m4 / (n - 1) / svar / svar\n",
   "            svar = self.variance(False)\n            if svar > 0:\n                return self._m4 / (n - 1) / svar / svar\n"),
+ ('C09-ci-alpha0', 'statistics.py',
+  "        level = 1.0 - alpha / 2.0\n        z = NormalDist(0.0, 1.0).inv_cdf(level)\n",
+  "        level = 1.0 - alpha / 2.0\n        if level >= 1.0:\n            # alpha = 0: 100% confidence; the unbounded interval is clipped \n            # to the observed range, like the intervals below\n            return (self._min, self._max)\n        z = NormalDist(0.0, 1.0).inv_cdf(level)\n"),
  ('C10-wvar', 'statistics.py',
   "        if self._n > 0:\n            w_pop_var = self._weight_times_variance / self._sum_of_weights\n",
   "        if self._n > 0 and self._sum_of_weights > 0:\n            w_pop_var = self._weight_times_variance / self._sum_of_weights\n"),
